@@ -28,17 +28,17 @@ WALKERS = [(F_WALKER, "HierarchyWalker"), (F_SAMPLE, "SamplePdkWalker"), (pt.PDK
 
 
 def check(repo: Repo, R) -> None:
-    walkers_only_swap_targets(repo, R)
+    R.run(walkers_only_swap_targets, repo, R)
     models = {n: pt.load(repo, n) for n in ("Sky130", "Gf180")}
     prims = pf.hdl21_primitives(repo)
     for n, m in models.items():
-        port_compat(repo, R, m, prims)
-        selection(repo, R, m)
-        defaults_and_dispatch(repo, R, m)
-        caches(repo, R, m)
-    small_pdks(repo, R, prims)
-    registry(repo, R)
-    logic_cells(repo, R)
+        R.run(port_compat, repo, R, m, prims)
+        R.run(selection, repo, R, m)
+        R.run(defaults_and_dispatch, repo, R, m)
+        R.run(caches, repo, R, m)
+    R.run(small_pdks, repo, R, prims)
+    R.run(registry, repo, R)
+    R.run(logic_cells, repo, R)
     R.floor("C15.1-walkers-only-swap-targets", 5)
     R.floor("C15.2-port-compatibility", 150)
     R.floor("C15.3-selection-well-formed", 8)
